@@ -12,7 +12,7 @@ import time
 from . import env
 
 ROOT = env.ROOT
-EVIDENCE_DIR = os.path.join(ROOT, 'evidence')
+EVIDENCE_DIR = os.environ.get('VF_EVIDENCE_DIR') or os.path.join(ROOT, 'evidence')
 REPLAY_DIR = os.path.join(EVIDENCE_DIR, 'replays')
 KNOWN = os.path.join(ROOT, 'known_findings.json')
 JOBS = int(os.environ.get('VF_JOBS', '16'))
@@ -33,7 +33,8 @@ def _child_env(params, twin=False, seed=0, hashseed=None, native=False):
     e['VF_PARAMS'] = json.dumps(params)
     e['VF_TWIN'] = '1' if twin else '0'
     e['VERIF_SEED'] = str(seed)
-    e['PYTHONPATH'] = ROOT + os.pathsep + e.get('PYTHONPATH', '')
+    # VF_REPO (development aid for trying seeded changes in a scratch worktree): import lark from there instead of /repo
+    e['PYTHONPATH'] = os.pathsep.join(x for x in (os.environ.get('VF_REPO'), ROOT, e.get('PYTHONPATH', '')) if x)
     e['PYTHONDONTWRITEBYTECODE'] = '1'
     e['PYTHONHASHSEED'] = str(hashseed if hashseed is not None else 0)
     if native:
